@@ -178,6 +178,38 @@ def run(ctx):
                     ctx.count("cli_penalty_ok")
             if len(ctx.samples) < 4:
                 ctx.sample(dict(records=recs[:3], params_observed={t: base[t][1] for t in base}))
+    # argv -> library call, judged against an independent expectation (not the Lean model): a decimal value given to --gpo/--gpe/--tgpe must reach
+    # kalign_run as exactly (float)value, -n as the integer, the other two penalties as -1 (= library default)
+    cl_lines, cl_meta = [], []
+    hx = lambda z: z.encode().hex()
+    for j in range(90 if ctx.quick else 900):
+        k = rng.randrange(3)
+        v = rng.choice(["0.5", "292.6", "5.5", "2.25", "0.1", "39.4", "217", "12", "1e2", "7.75", "0.999", "1.5e1", "3", "0", "8.0001", "123.456"])
+        nth = rng.choice([1, 2, 7, 16])
+        opt = ["gpo", "gpe", "tgpe"][k]
+        spell = rng.choice(["--%s", "-%s"]) % opt
+        args = ["-i", "in.fa", spell, v, "-n", str(nth)]
+        if rng.random() < 0.5:
+            args = [spell + "=" + v, "-n%d" % nth, "in.fa"]
+        cl_lines.append("cli 1 -1 " + " ".join(hx(a) for a in args))
+        cl_meta.append((k, v, nth, args))
+    rc_, out_, err_ = C.run_lines(kvh, cl_lines, env=C.SAN_ENV, timeout=600)
+    for (k, v, nth, args), o in zip(cl_meta, out_ + [""] * len(cl_meta)):
+        ctx.evaluations += 1
+        m_ = [x for x in o.split("calls=")[-1].split(";") if x.startswith("A,")] if o.startswith("exit=0") else []
+        if not m_:
+            if o and o != "bad-op":
+                fails.append(("kalign %s: the alignment was not run (%s)" % (" ".join(args), o[:200]), dict(argv=args)))
+            else:
+                ctx.count("cli_op_unavailable")
+            continue
+        f_ = m_[0].split(",")
+        want = ["bf800000"] * 3
+        want[k] = fbits(float(v))
+        if f_[3:6] != want or f_[1] != str(nth):
+            fails.append(("kalign %s: kalign_run received threads=%s gpo/gpe/tgpe=%s, expected threads=%d %s" % (" ".join(args), f_[1], f_[3:6], nth, want), dict(argv=args, observed=o)))
+        else:
+            ctx.count("cli_argv_to_call_ok")
     for why, rep in fails[:5]:
         ctx.violation(why, dict(kind="oracle", detail=rep))
     if diffs and not fails:
